@@ -1578,7 +1578,12 @@ class ScenarioOutline(Scenario):
         return iter(self.scenarios) # -- REQUIRE: BUILD-SCENARIOS
 
     def compute_status(self):
+        if not self._scenarios and self._expected_scenarios_count() > 0:
+            # -- SCENARIOS NOT BUILT YET: Nothing was executed so far.
+            return Status.untested
+
         skipped_count = 0
+        untested_count = 0
         for scenario in self._scenarios:    # -- AVOID: BUILD-SCENARIOS
             scenario_status = scenario.status
             this_status = OuterStatus.from_inner_status(scenario_status)
@@ -1586,9 +1591,15 @@ class ScenarioOutline(Scenario):
                 return this_status
             elif scenario_status == Status.skipped:
                 skipped_count += 1
+            elif scenario_status.is_untested():
+                untested_count += 1
         if skipped_count > 0 and skipped_count == len(self._scenarios):
             # -- ALL SKIPPED:
             return Status.skipped
+        if (untested_count > 0 and
+                untested_count + skipped_count == len(self._scenarios)):
+            # -- NOTHING EXECUTED: Not started yet or test-run was stopped before.
+            return Status.untested
         # -- OTHERWISE: ALL PASSED (some scenarios may have been excluded)
         return Status.passed
 
